@@ -362,11 +362,16 @@ class Lib:
                 c = inbin(src(t), k)
                 if mask is not None:
                     c = sv.and_(mask(t), c)
-                return ite(c, (w(t) if w is not None else 1), 0)
+                wt = norm(w(t)) if w is not None else 1
+                if isinstance(wt, sv.Cx):      # complex weights: numpy accumulates real and imaginary parts separately
+                    return sv.Cx(ite(c, wt.re, 0), ite(c, wt.im, 0))
+                return ite(c, wt, 0)
             return Sum(0, n, body)
         if not is_conc(B):
             cur().require(sv.cmp(">=", B, 1), "histogram-bins>=1")
         dt = "int" if w is None else "float"
+        if weights is not None and getattr(weights, "dtype", None) == "complex":
+            dt = "complex"
         counts = A.new_arr((B,), cnt, dt)
         edges = A.new_arr((A.simp(sv.add(B, 1)),), lambda idx: edge(idx[0]), "float")
         return (counts, edges)
@@ -650,7 +655,9 @@ class Lib:
         if name == "ndim":
             return a.ndim
         if name == "dtype":
-            return DType(a.dtype)
+            # an input array may carry the numpy name of a reduced-precision dtype (meta "dtype_name", e.g. complex64):
+            # same value model, but the name compares unequal to "complex128" / "float64" as in numpy
+            return DType(cur().heap[a.sid].meta.get("dtype_name", a.dtype) if a.view is None else a.dtype)
         if name == "T":
             return A.transpose(a)
         if name == "real":
@@ -683,7 +690,7 @@ class Lib:
             from .pandas_model import df_loc_getitem
             return df_loc_getitem(interp, obj.recv, key)
         if isinstance(obj, A.Masked):
-            return A.masked_getitem(obj, key)
+            return A.getitem(obj, key)
         raise EngineError(f"subscript of {type(obj).__name__}")
 
     def value_setitem(self, interp, obj, key, value):
